@@ -1067,6 +1067,46 @@ def from_numpy(x):
     return tensor(x)
 
 
+class _FInfo:
+    def __init__(self, dt):
+        bits = dt.bits // 2 if dt.is_complex else dt.bits
+        if dt.cat < 2:
+            raise TypeError('torch.finfo() requires a floating point input type')
+        if bits == 64:
+            self.eps, self.tiny, self.max, self.bits = 2.0 ** -52, 2.2250738585072014e-308, 1.7976931348623157e+308, 64
+        else:
+            self.eps, self.tiny, self.max, self.bits = 2.0 ** -23, 1.1754943508222875e-38, 3.4028234663852886e+38, 32
+        self.min = -self.max
+        self.smallest_normal = self.tiny
+        self.resolution = 1e-15 if bits == 64 else 1e-6
+        self.dtype = dt.name
+
+
+def finfo(dt=None):
+    return _FInfo(dt or _default_dtype)
+
+
+def where(cond, a=None, b=None):
+    if a is None or b is None:
+        unsupported('where(cond) without values')
+    ca = cond.a if _isinstance(cond, Tensor) else _objarr(cond)
+    aa = a.a if _isinstance(a, Tensor) else _objarr(_pyify(a))
+    ba = b.a if _isinstance(b, Tensor) else _objarr(_pyify(b))
+    try:
+        ca, aa, ba = _np.broadcast_arrays(ca, aa, ba)
+    except ValueError as e:
+        raise RuntimeError('symtorch where: ' + str(e))
+    out = _np.empty(ca.shape, dtype=object)
+    it = _np.ndindex(*ca.shape) if ca.ndim else [()]
+    for ix in it:
+        # a symbolic condition is decided per entry by the explorer (fork)
+        out[ix] = aa[ix] if _py_bool(ca[ix]) else ba[ix]
+    dt = a.dtype if _isinstance(a, Tensor) else (b.dtype if _isinstance(b, Tensor) else _default_dtype)
+    if _isinstance(a, Tensor) and _isinstance(b, Tensor):
+        dt = promote_types(a.dtype, b.dtype)
+    return _mk(out, dt, tuple(x for x in (a, b) if _isinstance(x, Tensor)))
+
+
 def is_tensor(x):
     return _isinstance(x, Tensor)
 
